@@ -60,6 +60,9 @@ def run_step(w, st, res):
         return scripts.finish_queue(w, res)
     if a == 'rand_queue_status':
         return scripts.rand_queue_status(w, st['seed'], st['sts'])
+    if a == 'comment_after':
+        w.comment(w.pmap[st['p']], CONTRIB, '@robot after_pull_request=%d' % w.pmap[st['dep']])
+        return None
     if a == 'decline_open':
         for sym, rid in sorted(w.pmap.items()):
             if w.pr(rid).status == 'OPEN':
@@ -308,7 +311,7 @@ def run_scenario(scn, scratch, tid=0, keep=False):
     w = None
     try:
         w = World(d, wc['branches'], tags=wc.get('tags'), hotfix=wc.get('hotfix'),
-                  settings=wc.get('settings'), cmd_line_options=wc.get('opts'))
+                  settings=wc.get('settings'), cmd_line_options=wc.get('opts'), flat=wc.get('flat', False))
         w.tid = tid
         w.observe('init')
         out['dtrees'] = []
